@@ -750,6 +750,16 @@ func (e *Exec) discharge(quick bool, sem chan struct{}, keepScripts bool) []*Obl
 					}
 				}
 			}
+			if best.Status != "unsat" && best.Status != "sat" {
+				// inconclusive so far (time-outs under load): one patient attempt
+				// before the obligation is reported as undecided
+				x := smt.RunSolver("z3-new", script, 90*time.Second)
+				r.Time += x.Time
+				if x.Status == "unsat" || x.Status == "sat" {
+					best = x
+					r.Solver = "z3-new+patient"
+				}
+			}
 			if !quick && best.Status == "unsat" {
 				// thorough tier: the other solvers are asked too; a proof only
 				// stands when none of them finds a model
